@@ -2,6 +2,7 @@
 import stateworld
 
 PROP_ID = "C14"
+WARMUP_RUNS = 150   # chunks run in fresh forks: kernel signatures must be compiled in the parent
 OWN_PREFIX = "c14."
 
 
@@ -36,3 +37,7 @@ def batch_oracles(merged, mode):
 # reach guard: a full-size batch in which one of these never fired means the workload or the
 # harness has rotted (exit 2, never a pass)
 REQUIRED_REACH = ['coin_force', 'rejected_op', 'backward_impossible_record', 'impossible_postselection', 'measure_layer_on_mixed_state', 'circuit_forward_on_mixed_state', 'backward_with_record:own', 'backward_with_record:true', 'backward_missing_or_wrong_length_record', 'determined_midcircuit_outcome']
+
+
+def warm_extra():
+    stateworld.warm_layouts()
